@@ -137,7 +137,7 @@ def slice_api(F, S):
         if len(sl) != 1 or len(sk) != 1:
             probs.append("expected one Slice(start,len) call and one SeekForward call")
         else:
-            a = [fn1.term(x) for x in sl[0]["args"]]
+            a = [fn1.xterm(x) for x in sl[0]["args"]]
             from ..facts import GETTERS
             pos_getter = [m for k, m in GETTERS.items() if k.startswith(q + "::Position(")]
             pos_ok = len(a) == 2 and ((a[0][0] == "call" and a[0][1].endswith("::Position") and a[0][2] == ("this",)) or
